@@ -346,8 +346,9 @@ def r05_8(run):
             v = getattr(cfg.stmt[d], "value", None)
             if isinstance(v, ast.Name):
                 work.append((v.id, d))
-            elif isinstance(v, ast.Call) and isinstance(v.func, ast.Name) and len(v.args) == 1 and isinstance(v.args[0], ast.Name) and not (dotted(v.func) or "").endswith("_like"):
-                work.append((v.args[0].id, d))  # grad_view = fn(grad_view)
+            elif isinstance(v, ast.Call) and len(v.args) == 1 and not v.keywords and isinstance(v.args[0], ast.Name) \
+                    and not (dotted(v.func) or "").endswith(("_like", "copy", "asarray", "array")):
+                work.append((v.args[0].id, d))  # grad_view = fn(grad_view) / self._apply_view_fns(grad): a view of its argument
             else:
                 allocs.append(v)
     unpack = [s for s in own_nodes(fi.node) if isinstance(s, ast.Assign) and norm(s.value) == "self.variables" and isinstance(s.targets[0], ast.Tuple)]
